@@ -1,7 +1,18 @@
 #!/usr/bin/env python3
-"""Inventory of panic-capable constructs on the UPDATE decoding path (C02, DESIGN.md section 4 T3).
+"""Inventory of panic-capable constructs on a decoding path (DESIGN.md section 4 T3).
+
+One committed inventory per property, each with its own `scope`:
+  tools/panic_sites_expected.json  C02  UPDATE decoding path
+  tools/panic_sites_C03.json       C03  OPEN / NOTIFICATION / KEEPALIVE / ROUTE-REFRESH, Header, Message::from_octets, builders
+  tools/panic_sites_C09.json       C09  Connection::parse_frame / read_frame / take_message, Session::tick / handle_msg /
+                                        handle_event, read_message
+  tools/panic_sites_C15.json       C15  src/bmp/message.rs and the `parse` entry points of open.rs / notification.rs
 
 usage: panic_sites.py <repo>|@check <expected.json> [--write] [--list]   (@check: the REPO of ./check)
+
+scope: { "<file>": { "fn": [regex on the function name, fullmatch],
+                     "skip_header": [regex searched in the enclosing impl / trait / macro header],
+                     "only_header": [regex; when present the header must match one of them] } }
 
 For every function the committed inventory names (file, enclosing impl/trait/macro header,
 function name, n-th definition of that name under that header) this lists the
@@ -18,7 +29,9 @@ that shows it unreachable, or the reason the site cannot fire).  A site that
 APPEARS (or changes its text) in a function of the scope, and a new function of
 the scope that has sites, breaks the tie: exit 1.  Sites and functions that
 disappear are printed as notes only (a refactoring into helpers or a repair adds
-nothing that could panic where the model does not look).  `--write` rewrites the `sites`
+nothing that could panic where the model does not look), and so are site lines that
+disappear from one function of a file and appear unchanged in another function of the
+same file (code moved into a helper or a renamed function).  `--write` rewrites the `sites`
 lists from the source and keeps the hand-written `model` / `guard` texts; a new
 function with sites gets `model: "TODO"`, which the comparison refuses.
 
@@ -176,7 +189,8 @@ def main():
     for f, rxs in inv["scope"].items():
         src = open(repo + "/" + f).read()
         for header, name, nth, body, line in functions(src):
-            if any(re.fullmatch(rx, name) for rx in rxs["fn"]) and not any(re.search(x, header) for x in rxs.get("skip_header", [])):
+            if any(re.fullmatch(rx, name) for rx in rxs["fn"]) and not any(re.search(x, header) for x in rxs.get("skip_header", [])) \
+                    and ("only_header" not in rxs or any(re.search(x, header) for x in rxs["only_header"])):
                 key = "%s | %s | %s#%d" % (f, header, name, nth)
                 found[key] = (sites(body), line)
     if "--list" in sys.argv:
@@ -202,10 +216,12 @@ def main():
     # disappear (a refactoring that moves code into a helper, a repair that removes an unwrap) are
     # reported as notes: nothing that could panic was added where the model does not look.
     bad, notes = [], []
+    cand = []      # (key, line, new site lines, message): breaks the tie unless every line was MOVED here
+    pool = {}      # file -> site lines that disappeared from functions of that file (a multiset)
     for k, (s, line) in found.items():
         if k not in old:
             if s:
-                bad.append("function in scope but not in the inventory: %s (line %d) with panic-capable sites %s" % (k, line, s))
+                cand.append((k, line, list(s), "function in scope but not in the inventory: %s (line %d) with panic-capable sites %s" % (k, line, s)))
             else:
                 notes.append("new function without panic-capable sites: %s" % k)
             continue
@@ -216,8 +232,10 @@ def main():
                 have.remove(x)
             else:
                 came.append(x)
+        if have:
+            pool.setdefault(k.split(" | ")[0], []).extend(have)
         if came:
-            bad.append("new panic-capable site(s) in %s (line %d; model operation: %s)\n      new : %s\n      gone: %s" % (k, line, old[k]["model"], came, have))
+            cand.append((k, line, came, "new panic-capable site(s) in %s (line %d; model operation: %s)\n      new : %s\n      gone: %s" % (k, line, old[k]["model"], came, have)))
         elif have:
             notes.append("sites gone from %s: %s" % (k, have))
         elif old[k]["model"] == "TODO" or (s and old[k]["guard"] == "TODO"):
@@ -225,6 +243,26 @@ def main():
     for k in old:
         if k not in found:
             notes.append("function of the inventory is gone (renamed / moved?): %s" % k)
+            pool.setdefault(k.split(" | ")[0], []).extend(old[k]["sites"])
+    # A refactoring that MOVES code (into a helper, into a renamed function) makes the same site lines
+    # disappear in one function of a file and appear in another: nothing that could panic was added, the
+    # model operation recorded for the old place still performs it.  Such lines are notes; a line that
+    # no function of the file lost is a new site.
+    for k, line, came, msg in cand:
+        avail = pool.get(k.split(" | ")[0], [])
+        take = list(avail)
+        ok = True
+        for x in came:
+            if x in take:
+                take.remove(x)
+            else:
+                ok = False
+                break
+        if ok:
+            pool[k.split(" | ")[0]] = take
+            notes.append("site line(s) moved within %s into %s (line %d): %s" % (k.split(" | ")[0], k, line, came))
+        else:
+            bad.append(msg)
     for x in notes:
         print("panic_sites note: " + x)
     if bad:
